@@ -723,6 +723,32 @@ func runBad(x *h.Ctx, c BadCase) string {
 		if out.Len() != 0 {
 			return fmt.Sprintf("output %q was produced although setup must fail first", out.String())
 		}
+		// the same value given to the parser, with a program that calls it: a parse error or a setup error, never a panic
+		if msg := func() (msg string) {
+			defer func() {
+				if r := recover(); r != nil {
+					msg = fmt.Sprintf("parsing a program that calls a native function of an undocumented shape (%s) panicked: %v", c.Which, r)
+				}
+			}()
+			funcs := map[string]any{"badf": badShapes[c.Which]}
+			p2, err := parser.ParseProgram([]byte(`BEGIN { print "x"; badf() }`), &parser.ParserConfig{Funcs: funcs})
+			if err != nil {
+				if _, ok := err.(*parser.ParseError); !ok {
+					return fmt.Sprintf("shape %s: ParseProgram returned a %T, not a *ParseError", c.Which, err)
+				}
+				return ""
+			}
+			var o2 bytes.Buffer
+			if _, err := interp.ExecProgram(p2, &interp.Config{Output: &o2, Stdin: strings.NewReader(""), Environ: []string{}, Funcs: funcs}); err == nil && c.Which != "error-only" {
+				return fmt.Sprintf("a program calling a native function of an undocumented shape (%s) ran without error", c.Which)
+			}
+			if o2.Len() != 0 && c.Which != "error-only" {
+				return fmt.Sprintf("shape %s: output %q was produced although setup must fail first", c.Which, o2.String())
+			}
+			return ""
+		}(); msg != "" {
+			return msg
+		}
 	}
 	x.Class(strings.SplitN(c.Which, ":", 2)[0])
 	x.Nontrivial(c.Which + strconv.Itoa(c.N))
